@@ -120,6 +120,7 @@ def run(ctx):
     loopless_test(ctx, g)
     euler_formula(ctx, g)
     symbol_genus(ctx, g)
+    dual_algebra(ctx, g)
 
 
 def loopless_test(ctx, g):
@@ -237,6 +238,54 @@ def symbol_genus(ctx, g):
             bad.append("the number of %r is %s for (euler, #boundaries) = (2,0), (0,0), (-2,0), (-4,2), (1,1), (-1,3); expected %s" % (k, got[k][1], w[1]))
     ctx.ob("T4-symbol-genus", b.name, "handles / cross-caps", "ok" if not bad else "violation",
            "'o' * ((2 - chi) / 2) on orientable, 'x' * (2 - chi) on non-orientable surfaces, chi = euler + #boundaries (6 sampled surfaces)" if not bad else "; ".join(bad))
+
+
+def dual_algebra(ctx, g):
+    """dual(ds) reverses the order of the operations: op'(i, d) = op(n - i, d) and the branching number of the pair (i, i+1) is that of
+    (n - i - 1, n - i) at the same chamber, on the same chambers and dimension (n = dim); decided by evaluating the closures' index
+    expressions for n = 1..4"""
+    ctx.clauses.append("dual: op'(i, d) = op(dim - i, d), v'(i, i+1, d) = v(dim - i - 1, dim - i, d), same size and dimension (T4, closures evaluated)")
+    b = ctx.body("derived::dual")
+    ctx.scan(ctx.facts.with_closures(b.name))
+    ds = ("param", 1, b.debug.get(1, ""))
+    r = norm(b.local_origin(0), g)
+    okshape = is_call(r, "derived::build_sym_using_vs") and is_call(strip(r[2][0]), "derived::build_set")
+    bad = None if okshape else "dual is not build_sym_using_vs(build_set(..), ..): " + show(r, 1)[:80]
+    if okshape:
+        bs = strip(r[2][0])
+        if not (strip(bs[2][0]) == ("call", "dsets::DSet::size", (ds,)) and strip(bs[2][1]) == ("call", "dsets::DSet::dim", (ds,))):
+            bad = "the dual does not have the size and dimension of ds: build_set(%s, %s, ..)" % (show(bs[2][0], 1)[:30], show(bs[2][1], 1)[:30])
+        cps = [closure_parts(strip(bs[2][2])), closure_parts(strip(r[2][1]))]
+        if bad is None and (None in cps):
+            bad = "the operation / branching maps of the dual are not closure literals"
+        if bad is None:
+            for which, (cname, caps) in zip(("op", "v"), cps):
+                cb = ctx.facts.bodies.get(cname)
+                res = strip(norm(cb.local_origin(0), g))
+                capenv = {}
+                for k, c in enumerate(caps):
+                    c = strip(norm(c, g))
+                    capenv[("field", ("param", 1, ""), str(k))] = c
+                i_, d_ = ("param", 2, cb.debug.get(2, "")), ("param", 3, cb.debug.get(3, ""))
+                want_callee = "DSet::op" if which == "op" else "DSym::v"
+                if not is_call(res, want_callee):
+                    bad = bad or "the %s map of the dual is not ds.%s(..): %s" % (which, which, show(res, 1)[:60])
+                    continue
+                args = res[2]
+                if capenv.get(strip(args[0])) != ds or strip(args[-1]) != d_:
+                    bad = bad or "the %s map of the dual does not read ds at the same chamber d" % which
+                    continue
+                dimcap = [k for k, c in capenv.items() if c == ("call", "dsets::DSet::dim", (ds,))]
+                for n in (1, 2, 3, 4):
+                    for i in range(0, n + (1 if which == "op" else 0)):
+                        env = {i_: i}
+                        env.update({k: n for k in dimcap})
+                        got = [eval_term_env(a, env) for a in args[1:-1]]
+                        want = [n - i] if which == "op" else [n - i - 1, n - i]
+                        if got != want:
+                            bad = bad or "for dim %d the %s map of the dual sends index %d to %s, expected %s" % (n, which, i, got, want)
+    ctx.ob("T4-dual-algebra", b.name, "op(n - i, d) / v(n - i - 1, n - i, d)", "ok" if not bad else "violation",
+           "indices are reversed consistently for operations and branching numbers (dim 1..4)" if not bad else bad)
 
 
 def symbol_digits(ctx, g):
